@@ -36,22 +36,72 @@ def mk_param(p, num):
     raise ValueError(kind)
 
 
-def mk_reaction(spec, num):
+def _coef(v, coef_type):
+    """a stoichiometric coefficient: int when integral, else Fraction or (dyadic, exact) float"""
+    q = kg.frac(v) if isinstance(v, list) else Fraction(v)
+    if q.denominator == 1:
+        return int(q)
+    if coef_type == 'float':
+        f = float(q)
+        assert Fraction(f) == q
+        return f
+    return q
+
+
+def _parts(spec, coef_type):
+    return dict(reac=OrderedDict((k, _coef(v, coef_type)) for k, v in spec['reac']),
+                prod=OrderedDict((k, _coef(v, coef_type)) for k, v in spec['prod']),
+                inact_reac=OrderedDict((k, _coef(v, coef_type)) for k, v in spec['inact_reac']),
+                inact_prod=OrderedDict((k, _coef(v, coef_type)) for k, v in spec['inact_prod']))
+
+
+def mk_reaction(spec, num, coef_type=None, param=None):
     from chempy import Reaction
-    return Reaction(OrderedDict((k, v) for k, v in spec['reac']), OrderedDict((k, v) for k, v in spec['prod']),
-                    mk_param(spec['param'], num),
-                    inact_reac=OrderedDict((k, v) for k, v in spec['inact_reac']),
-                    inact_prod=OrderedDict((k, v) for k, v in spec['inact_prod']), checks=())
+    pt = _parts(spec, coef_type)
+    return Reaction(pt['reac'], pt['prod'], mk_param(spec['param'], num) if param is None else param,
+                    inact_reac=pt['inact_reac'], inact_prod=pt['inact_prod'], checks=())
+
+
+def mk_reactions(specs, num, coef_type=None, existing=()):
+    """the reactions of a system.  `share: g` = the reactions of group g with the same parameter spec get the SAME rate-expression
+    object (aliasing); `from_copy: j` = the reaction is derived from reaction j with `Reaction.copy(reac=..., prod=..., ...)`
+    (its param is whatever `copy` hands on; a different parameter spec is then assigned through the public attribute)."""
+    shared, out = {}, []
+    for s in specs:
+        pool = list(existing) + out
+        j = s.get('from_copy')
+        if j is not None and 0 <= j < len(pool):
+            r = pool[j].copy(**_parts(s, coef_type))
+            if live_param(r.param) != _norm_param(s['param']):
+                r.param = mk_param(s['param'], num)
+        else:
+            p = None
+            if s.get('share') is not None and s['param']['kind'] in ('ma', 'named', 'sym'):
+                key = (s['share'], json.dumps(s['param'], sort_keys=True))
+                if key not in shared:
+                    shared[key] = mk_param(s['param'], num)
+                p = shared[key]
+            r = mk_reaction(s, num, coef_type, p)
+        out.append(r)
+    return out
+
+
+def _norm_param(p):
+    q = {k: v for k, v in p.items() if k in ('kind', 'uk', 'k')}
+    if 'k' in q:
+        q['k'] = rat_json(kg.frac(q['k']))
+    return q
 
 
 def mk_rsys(c):
     """substances registered under their keys; `alias` = {key: Substance.name} for substances whose name differs from the key"""
     from chempy import ReactionSystem, Substance
     alias = dict(c.get('alias') or [])
+    rxns = mk_reactions(c['rxns'], c['num'], c.get('coef_type'))
     if not alias:
-        return ReactionSystem([mk_reaction(s, c['num']) for s in c['rxns']], list(c['subst']), checks=())
+        return ReactionSystem(rxns, list(c['subst']), checks=())
     subs = OrderedDict((k, Substance(alias.get(k, k))) for k in c['subst'])
-    return ReactionSystem([mk_reaction(s, c['num']) for s in c['rxns']], subs, checks=())
+    return ReactionSystem(rxns, subs, checks=())
 
 
 def cstr_pair(c):
@@ -227,6 +277,27 @@ def fclose(a, b, scale):
     return close(a, b, rtol=1e-9, atol=1e-12 * float(scale) + 1e-300)
 
 
+def poly_equal(a, b):
+    """polynomial identity a == b: exact for rational coefficients; where a float stoichiometric coefficient made sympy
+    compute in floating point (coef_type 'float' times a non-dyadic constant) coefficient-wise with relative tolerance 1e-9"""
+    import sympy
+    d = sympy.expand(a - b)
+    if d == 0:
+        return True
+    if not d.atoms(sympy.Float):
+        return False
+    a, b = sympy.expand(a), sympy.expand(b)
+    gens = sorted(a.free_symbols | b.free_symbols, key=str)
+    if not gens:
+        return abs(float(a) - float(b)) <= 1e-9 * max(1.0, abs(float(a)), abs(float(b)))
+    pa, pb = dict(sympy.Poly(a, *gens).terms()), dict(sympy.Poly(b, *gens).terms())
+    for m in set(pa) | set(pb):
+        x, y = float(pa.get(m, 0)), float(pb.get(m, 0))
+        if abs(x - y) > 1e-9 * max(1.0, abs(x), abs(y)):
+            return False
+    return True
+
+
 def participates(c):
     ks = set(k for s in c['rxns'] for k in kg.spec_keys(s))
     return ks
@@ -361,12 +432,13 @@ def apply_real(rsys, st, num):
     if do == 'set_param':
         rsys.rxns[st['i']].param = mk_param(st['param'], num)
     elif do == 'replace_rxn':
-        rsys.rxns[st['i']] = mk_reaction(st['rxn'], num)
+        rsys.rxns[st['i']] = mk_reactions([st['rxn']], num, existing=rsys.rxns)[0]
     elif do == 'append':
+        new = mk_reactions([st['rxn']], num, existing=rsys.rxns)[0]          # possibly `rsys.rxns[j].copy(reac=...)`
         if st.get('via') == 'iadd':
-            rsys += [mk_reaction(st['rxn'], num)]
+            rsys += [new]
         else:
-            rsys.rxns.append(mk_reaction(st['rxn'], num))
+            rsys.rxns.append(new)
     elif do == 'delete':
         del rsys.rxns[st['i']]
     elif do == 'permute_rxns':
@@ -399,7 +471,8 @@ class C04(Property):
     rule = ('random reaction systems (1-8/12 substances, 0-6/12 reactions, coefficients 0-3, catalysts, inactive parts, duplicated '
             'reactions, substances in no reaction), each rate parameter one of: plain number, MassAction([k]), MassAction([k], '
             'unique_keys=[uk]), string key, MassAction([Symbol(uk)]); unique keys drawn from a pool with shared prefixes (k1, k10, k1_), '
-            'sometimes shared between reactions; constants int / Fraction / sympy.Rational; 15 % histories over ONE ReactionSystem '
+            'sometimes shared between reactions; the SAME MassAction object as param of several reactions (20 %), reactions derived with '
+            'Reaction.copy(reac=...) (10 %); 10 % oracle-only cases with non-integral coefficients; constants int / Fraction / sympy.Rational; 15 % histories over ONE ReactionSystem '
             'object (build, then set rxn.param / replace / append (list, +=) / delete / permute reactions / sort_substances_inplace, '
             'build again with either entry point and any configuration, expected value from the CURRENT public state); configurations: get_odesys with '
             'include_params True/False x passive substitutions (subset of keys, CSTR keys, unknown key) x cstr, _create_odesys with '
@@ -430,6 +503,11 @@ class C04(Property):
         'the order of the CSTR keys inside param_names (a Python set): compared as a set, no theorem',
         'linear_invariants handed to SymbolicSys (C05) and variables[\'time\']: not part of the model',
         'when _create_odesys accepts: inversion lemma only (buildRhs\'_ok), no success characterisation like get_odesys_accepts',
+        'non-integral stoichiometric coefficients (e.g. H2O2 -> H2O + 1/2 O2 with the all_integral check omitted): the Lean model\'s '
+        'coefficients are natural numbers (C03\'s Model/Kinetics.lean, not editable here); covered by the oracle only (10 % of the cases: '
+        'Fraction / exact-float coefficients in products and inactive parts, both builders, all configurations)',
+        'aliasing of Python objects (one rate-expression object as param of several reactions, reactions derived with Reaction.copy): the '
+        'model sees values only; that object identity does not matter is decided by correspondence + oracle (share / from_copy streams)',
         'statelessness across histories (build, mutate rxn.param / rsys.rxns / substance order on the same objects, build again): the '
         'model is a pure function of the current public state; that the real builders are too is decided by history '
         'correspondence + oracle only (15 % of the cases, corpus/C04/histories.json)',
@@ -444,7 +522,64 @@ class C04(Property):
 
     # ---------------------------------------------------------------------------------------
     def generate(self, rng, n, tier):
-        return [self._history(rng, tier) if rng.random() < 0.15 else self._gen_one(rng, tier) for _ in range(n)]
+        out = []
+        for _ in range(n):
+            r = rng.random()
+            if r < 0.15:
+                out.append(self._history(rng, tier))
+            elif r < 0.25:
+                out.append(self._fractional(rng, tier))
+            else:
+                out.append(self._gen_one(rng, tier))
+        return out
+
+    def _share(self, rng, rxns):
+        """aliasing: one rate-expression OBJECT as `param` of several reactions; reactions derived with Reaction.copy(...)"""
+        if len(rxns) < 2:
+            return
+        r = rng.random()
+        if r < 0.2:
+            cand = [i for i, s in enumerate(rxns) if s['param']['kind'] in ('ma', 'named', 'sym')]
+            if cand:
+                i = rng.choice(cand)
+                for j in rng.sample([j for j in range(len(rxns)) if j != i], rng.randint(1, min(2, len(rxns) - 1))):
+                    rxns[j]['param'] = dict(rxns[i]['param'])
+                    rxns[j]['share'] = 0
+                rxns[i]['share'] = 0
+        elif r < 0.3:
+            i = rng.randrange(len(rxns) - 1)
+            j = rng.randrange(i + 1, len(rxns))
+            rxns[j]['from_copy'] = i
+            if rng.random() < 0.7:
+                rxns[j]['param'] = dict(rxns[i]['param'])
+
+    def _fractional(self, rng, tier):
+        """non-integral stoichiometric coefficients (products / inactive parts; reaction orders stay integral so that the rate is a
+        polynomial): oracle only — the Lean model's coefficients are natural numbers"""
+        for _ in range(50):
+            c = self._gen_one(rng, tier)
+            if c['rxns'] and clean(c):
+                break
+        c['op'] = None
+        c['kind'] = 'fractional'
+        c['coef_type'] = rng.choice(['Fraction', 'float'])
+        if c['num'] == 'int':
+            c['num'] = 'Fraction'
+        vals = [[1, 2], [3, 2], [5, 2], [1, 4]] + ([[1, 3], [2, 3]] if c['coef_type'] == 'Fraction' else [])
+        done = False
+        for s in c['rxns']:
+            for part_ in ('prod', 'inact_prod', 'inact_reac'):
+                for kv in s[part_]:
+                    if rng.random() < 0.5:
+                        kv[1] = rng.choice(vals)
+                        done = True
+        if not done:
+            s = rng.choice(c['rxns'])
+            if not s['prod']:
+                s['prod'] = [[rng.choice(c['subst']), [1, 2]]]
+            else:
+                s['prod'][0][1] = [1, 2]
+        return c
 
     def _rand_param(self, rng, num, builder_mix, used):
         kind = rng.choice(['raw', 'ma', 'named', 'named', 'key', 'sym'])
@@ -509,7 +644,12 @@ class C04(Property):
                 st['rxn']['param'] = self._rand_param(rng, num, None, used)
             elif m < 0.7:
                 st = {'do': 'append', 'rxn': dict(kg.rand_reaction(rng, state['subst'], num, cmax), ordered=True), 'via': rng.choice(['list', 'iadd'])}
-                st['rxn']['param'] = self._rand_param(rng, num, None, used)
+                if rng.random() < 0.4:                       # derived from a live reaction with Reaction.copy(reac=..., ...)
+                    j = rng.randrange(nr)
+                    st['rxn']['from_copy'] = j
+                    st['rxn']['param'] = dict(state['rxns'][j]['param'])
+                else:
+                    st['rxn']['param'] = self._rand_param(rng, num, None, used)
             elif m < 0.76 and nr > 1:
                 st = {'do': 'delete', 'i': rng.randrange(nr)}
             elif m < 0.88:
@@ -601,6 +741,7 @@ class C04(Property):
         syms = list(subst) + uks + ['feedratio'] + ['fc_' + s for s in subst]
         c['point'] = [[k, rat_json(Fraction(rng.randint(-3, 9), rng.choice([1, 1, 2, 3])))] for k in dict.fromkeys(syms)]
         c['alias'] = self._alias(rng, subst)
+        self._share(rng, rxns)
         return c
 
     def _alias(self, rng, subst):
@@ -709,6 +850,9 @@ class C04(Property):
                 if f is not None:
                     return where + ': ' + f + ' [expected from the CURRENT reactions, constants and substance order]'
             return None
+        if c.get('kind') == 'fractional' and c.get('op') is None:
+            c = dict(c, op='build', rxns=[dict(s, **{p_: [[k, (lambda q: int(q) if q.denominator == 1 else q)(kg.frac(v) if isinstance(v, list) else Fraction(v))]
+                                                            for k, v in s[p_]] for p_ in PARTS}) for s in c['rxns']])
         if c.get('op') != 'build':
             return None
         want_coeffs = expected_free(c)
@@ -777,7 +921,7 @@ class C04(Property):
         except KeyError as e:
             return 'no symbol for %s among names %s and param_names %s' % (e, list(odesys.names), list(odesys.param_names))
         for sk, got, w in zip(c['subst'], odesys.exprs, want):
-            if sympy.expand(got - w) != 0:
+            if not poly_equal(got, w):
                 return 'd[%s]/dt = %s but N^T r = %s' % (sk, got, sympy.expand(w))
         # --- numeric callbacks at a rational point
         pt = point_of(c)
@@ -816,7 +960,7 @@ class C04(Property):
                        for s, q in zip(c['rxns'], inl_coeffs)]
                 w2, _ = expected_rhs(c, inl, value_of)
                 for sk, got, w in zip(c['subst'], odesys.exprs, w2):
-                    if sympy.expand(got.subs(bind) - w) != 0:
+                    if not poly_equal(got.subs(bind), w):
                         return 'binding the parameters to their stored constants gives d[%s]/dt = %s, inlined: %s' % (
                             sk, sympy.expand(got.subs(bind)), sympy.expand(w))
                 # and the real inlined build, when it is accepted
@@ -833,7 +977,7 @@ class C04(Property):
                 ren = dict(zip(o2.dep, odesys.dep))
                 ren.update({p2: symof[n] for p2, n in zip(o2.params, o2.param_names) if n in symof})
                 for sk, got, g2 in zip(c['subst'], odesys.exprs, o2.exprs):
-                    if sympy.expand(got.subs(bind2) - g2.subs(ren)) != 0:
+                    if not poly_equal(got.subs(bind2), g2.subs(ren)):
                         return 'free build bound to the stored constants differs from the include_params=True build for %s' % sk
         # --- the other builder
         if clean(c) and not c['subs'] and not c['param_exprs'] and c['builder'] == 'get' and not c['include_params']:
@@ -848,7 +992,7 @@ class C04(Property):
                 ren = dict(zip(o3.dep, odesys.dep))
                 ren.update({p3: symof[n] for p3, n in zip(o3.params, o3.param_names)})
                 for sk, g1, g3 in zip(c['subst'], odesys.exprs, o3.exprs):
-                    if sympy.expand(g1 - g3.subs(ren, simultaneous=True)) != 0:
+                    if not poly_equal(g1, g3.subs(ren, simultaneous=True)):
                         return 'builders disagree on d[%s]/dt: %s vs %s' % (sk, g1, g3)
         return None
 
@@ -859,7 +1003,7 @@ class C04(Property):
         symbol* under the unique key (the rate constant silently becomes a concentration; a value-less key is accepted) or the
         substitution overwrites the concentration.  Characterising predicate: get_odesys and the unique key of some reaction
         is a substance key (with include_params=False and no substitution of that key the build is refused, so nothing fails)."""
-        if c.get('op') == 'build' and c['builder'] == 'get':
+        if (c.get('op') == 'build' or c.get('kind') == 'fractional') and c['builder'] == 'get':
             if any(s['param'].get('uk') in c['subst'] for s in c['rxns']):
                 return 'get_odesys:substance-named-like-unique-key'
         return None
@@ -867,13 +1011,16 @@ class C04(Property):
     def classify(self, c):
         if c.get('op') == 'history':
             return 'history:' + '+'.join(sorted({x['do'] for x in c['steps'] if x['do'] != 'build'})) + (':alias' if c.get('alias') else '')
+        if c.get('kind') == 'fractional':
+            return 'fractional:%s:%s%s' % (c['coef_type'], c['builder'], ':cstr' if c['cstr'] else '')
         if c.get('op') != 'build':
             return str(c.get('op'))
         kinds = ''.join(sorted(set(s['param']['kind'][0] for s in c['rxns'])))
         cfg = c['builder'] + (':inl' if c['include_params'] else ':free') * (c['builder'] == 'get') + \
             (':cstr' if c['cstr'] else '') + (':subs' if c['subs'] or c['param_exprs'] else '')
         return '%s:%s:%s:nr%d%s' % (cfg, 'clean' if clean(c) else 'edge', kinds or '-', min(len(c['rxns']), 4),
-                                    ':shared' if shared_inconsistent(c) else '') + (':alias' if c.get('alias') else '')
+                                    ':shared' if shared_inconsistent(c) else '') + (':alias' if c.get('alias') else '') + (
+            ':same-object' if any('share' in s for s in c['rxns']) else '') + (':copy' if any('from_copy' in s for s in c['rxns']) else '')
 
     def nontrivial(self, c):
         return bool(c.get('rxns'))
